@@ -210,7 +210,7 @@ impl Prop for C16 {
     fn spaces(&self, tier: Tier) -> Vec<Space> {
         match tier {
             Tier::Quick => vec![Space { name: "gen", size: 30000, exhaustive: false, chunk: 200, case_timeout_s: 60.0, what: "generated programs x (consistent renaming into ordinary / odd / compiler-like names, redundant parentheses, agreeing annotations, comments, indentation, blank lines)" }],
-            Tier::Thorough => vec![Space { name: "gen", size: 150_000, exhaustive: false, chunk: 1000, case_timeout_s: 60.0, what: "generated programs x source-to-source transformations" }],
+            Tier::Thorough => vec![Space { name: "gen", size: 750_000, exhaustive: false, chunk: 1000, case_timeout_s: 60.0, what: "generated programs x source-to-source transformations" }],
         }
     }
     fn run(&self, _space: &str, _index: u64, g: &mut Gen, cx: &Cx) -> CaseResult {
